@@ -6,7 +6,7 @@
 From Coq Require Import List String Bool.
 Import ListNotations.
 From ClasticV Require Import Base.Py Base.FSet Gen.Tables Model.Chain Model.Exec
-     Proofs.ChainProofs Proofs.ExecProofs Proofs.RouteProofs.
+     Proofs.ChainProofs Proofs.ExecProofs Proofs.RouteProofs Proofs.OnionProofs Proofs.ValueProofs Proofs.NestedProofs.
 Local Open Scope string_scope.
 Local Open Scope list_scope.
 
@@ -68,6 +68,33 @@ Theorem C01_app_accept :
                               (a_endpoint a) (a_render a)) = Ok pr.
 Proof. exact app_accept. Qed.
 Print Assumptions C01_app_accept.
+
+(* an application embedded under a prefix in an outer one is accepted only if the inner application is, the outer
+   application's own resources / middlewares / null route are, and the RE-BOUND route - URL names of the prefix added,
+   the flat middleware list, the resources of all levels - is; and then no request to it can fail on a framework call *)
+Theorem C01_nested_accept :
+  forall o a pn pr m2,
+  build_nested o a = Ok (pn, pr, m2) ->
+  (exists pn0 pr0, build_app a = Ok (pn0, pr0)) /\
+  (forall r, In r RESERVED_ARGS -> ~ In r (o_resources o)) /\
+  check_middlewares (o_mws o) [] = Ok tt /\
+  build_route (outer_null_cfg o) = Ok pn /\
+  (match merge_into (o_mws o) (a_mws a) with Ok acc => merge_into acc (a_route_mws a) | Raise c => Raise "ValueError" end) = Ok m2 /\
+  build_route (nested_route_cfg o a m2) = Ok pr.
+Proof. exact nested_accept. Qed.
+Print Assumptions C01_nested_accept.
+
+Theorem C01_nested_no_arg_error_partial :
+  forall o a pn pr m2 sc inj,
+  build_nested o a = Ok (pn, pr, m2) ->
+  no_posonly m2 (a_endpoint a) (a_render a) ->
+  (forall x, In x (base (nested_route_cfg o a m2)) -> In x (map fst inj)) ->
+  clean (snd (run sc pr inj)).
+Proof.
+  intros o a pn pr m2 sc inj Hb Hp Hi. destruct (nested_accept o a pn pr m2 Hb) as (_ & _ & _ & _ & _ & Hr).
+  exact (route_run_clean (nested_route_cfg o a m2) pr sc inj Hr Hp Hi).
+Qed.
+Print Assumptions C01_nested_no_arg_error_partial.
 
 (* F2 (known finding): a positional-only parameter that is in scope is passed by
    keyword, which Python rejects - witness on the faithful model *)
